@@ -22,15 +22,21 @@ def plan(tier, seed):
     nested = dict(seeds=[L[n] for n in ["D33", "Td3", "S33", "P4", "D23", "D32c", "D19", "Dg3", "K33"]] + [big["Hc55"]],
                   operands=[L["D23"]], small=[L["D22c"]], acts={"Sliced", "op_getitem"}, lvl=2, dim=9,
                   forms=[{"t": "slice", "v": v} for v in ([0, 2, None], [1, 3, None], [None, 2, None], [1, None, None],
-                                                          [None, None, 2])],
+                                                          [None, None, 2], [None, None, None], [None, None, -1])],
                   iforms=[{"t": "slice", "v": v} for v in ([1, 5, None], [0, 3, None], [None, None, None],
                                                            [1, None, None], [None, 1, None])]
                   + [{"t": "int", "v": 0}, {"t": "int", "v": -1}, {"t": "array", "v": [1, 0]}], stride=1)
+    declared = dict(seeds=catalog.declared_leaves(), operands=[L["D23"]], small=[L["D22c"]],
+                    acts={"Sliced", "op_getitem"}, lvl=2, dim=5,
+                    forms=[{"t": "slice", "v": v} for v in ([None, None, None], [None, None, -1], [1, 3, None])]
+                    + [{"t": "array", "v": [2, 0, 1]}, {"t": "array", "v": [0, 1, 2]}],
+                    iforms=[{"t": "int", "v": 0}, {"t": "int", "v": 1}, {"t": "int", "v": -1},
+                            {"t": "slice", "v": [None, None, None]}, {"t": "slice", "v": [0, 2, None]}], stride=1)
     if tier == "quick":
         ops = [L[n] for n in ["D23", "D32c", "Dg2c"]]
         small = [L["D22c"], L["D23"]]
         return [
-            nested,
+            nested, declared,
             dict(seeds=all_leaves, operands=ops, small=small, acts={"op_getitem"}, lvl=1, dim=12, iforms=iforms,
                  forms=forms, stride=1),
             dict(seeds=all_leaves, operands=ops, small=small, acts=BASE | {"op_getitem"}, lvl=2, dim=6,
@@ -39,7 +45,7 @@ def plan(tier, seed):
     ops = [L[n] for n in ["D22", "D23", "D32c", "Dg2c", "I2", "P3", "S33", "R0"]]
     small = [L["D22c"], L["D23"]]
     return [
-        nested,
+        nested, declared,
         dict(seeds=all_leaves, operands=ops, small=small, acts={"op_getitem"}, lvl=1, dim=12, iforms=iforms,
              forms=forms, stride=1),
         dict(seeds=all_leaves, operands=ops, small=small, acts=BASE | {"op_getitem"}, lvl=2, dim=9, iforms=iforms,
